@@ -1,4 +1,5 @@
 import SecpZkp.Driver.Basic
+import SecpZkp.Driver.Generator
 import Std.Data.HashMap
 /-
   secpmodel: reads one operation per line on stdin, prints the model's result line.
@@ -6,7 +7,7 @@ import Std.Data.HashMap
 open SecpZkp SecpZkp.Driver
 
 def allHandlers : List (String × Handler) :=
-  basicHandlers
+  basicHandlers ++ generatorHandlers
 
 def table : Std.HashMap String Handler := Std.HashMap.ofList allHandlers
 
